@@ -363,23 +363,37 @@ fn chunker_config_from_params<R>(
 ) -> Result<chunker::Config, ArchiveError<R>> {
     use dict::chunker_parameters::ChunkingAlgorithm;
     match ChunkingAlgorithm::try_from(p.chunking_algorithm) {
-        Ok(ChunkingAlgorithm::Buzhash) => Ok(chunker::Config::BuzHash(chunker::FilterConfig {
-            filter_bits: chunker::FilterBits::from_bits(p.chunk_filter_bits),
-            min_chunk_size: p.min_chunk_size as usize,
-            max_chunk_size: p.max_chunk_size as usize,
-            window_size: p.rolling_hash_window_size as usize,
-        })),
-        Ok(ChunkingAlgorithm::Rollsum) => Ok(chunker::Config::RollSum(chunker::FilterConfig {
-            filter_bits: chunker::FilterBits::from_bits(p.chunk_filter_bits),
-            min_chunk_size: p.min_chunk_size as usize,
-            max_chunk_size: p.max_chunk_size as usize,
-            window_size: p.rolling_hash_window_size as usize,
-        })),
+        Ok(ChunkingAlgorithm::Buzhash) => Ok(chunker::Config::BuzHash(filter_config_from_params(&p)?)),
+        Ok(ChunkingAlgorithm::Rollsum) => Ok(chunker::Config::RollSum(filter_config_from_params(&p)?)),
         Ok(ChunkingAlgorithm::FixedSize) => {
+            if p.max_chunk_size < 1 {
+                return Err(ArchiveError::invalid_archive("invalid chunker parameters"));
+            }
             Ok(chunker::Config::FixedSize(p.max_chunk_size as usize))
         }
         Err(_err) => Err(ArchiveError::invalid_archive("unknown chunking algorithm")),
     }
+}
+
+fn filter_config_from_params<R>(
+    p: &dict::ChunkerParameters,
+) -> Result<chunker::FilterConfig, ArchiveError<R>> {
+    // The parameters are not to be trusted, reject what no chunker can run with.
+    if p.chunk_filter_bits < 1
+        || p.chunk_filter_bits > 30
+        || p.rolling_hash_window_size < 1
+        || p.max_chunk_size < 1
+        || p.min_chunk_size > p.max_chunk_size
+        || p.rolling_hash_window_size > p.max_chunk_size
+    {
+        return Err(ArchiveError::invalid_archive("invalid chunker parameters"));
+    }
+    Ok(chunker::FilterConfig {
+        filter_bits: chunker::FilterBits::from_bits(p.chunk_filter_bits),
+        min_chunk_size: p.min_chunk_size as usize,
+        max_chunk_size: p.max_chunk_size as usize,
+        window_size: p.rolling_hash_window_size as usize,
+    })
 }
 
 fn compression_from_dictionary<R>(
